@@ -1,6 +1,6 @@
 (* C18 — queue identity, queue-specific data and attributes are reported faithfully.
    Proved here: the global queue map (over Gen_qos, generated) and the attribute algebra (Model/Attr.v, tied
-   exhaustively).  The get_specific / assert_queue clause is NOT proved yet (see DESIGN.md). *)
+   exhaustively), and — appended below — the get_specific / assert_queue clause over Model/Frames.v. *)
 From Coq Require Import ZArith Bool.
 From Verif Require Import Word Gen_consts Gen_qos Qos Attr Time_proofs Qos_proofs Attr_proofs.
 Local Open Scope Z_scope.
